@@ -14,10 +14,10 @@ pub fn prop() -> Prop {
     Prop {
         id: "C09",
         level: "model_checking",
-        rule: "all streams of <=4 (thorough <=6) rows {k,v,id} over the group keys {\"a\",\"b\",\"\",\"é\",1,null,absent} (including the empty stream and streams whose every row is dropped) x 11 upstream pipelines (none, select, select of the key only (so that rows repeat), filter, unique, sort by id desc, sort by the mixed-type key, skip+take, split, take 0, select+sort+skip+take) x {--group-by=.k, --group-by=(get . \"k\"), --merge} x {json, text output}; long cyclic streams of 17, 40, 300 and 1100 rows; non-trivial = two rows share a key or a row is dropped for its key; distinct by construction",
+        rule: "all streams of <=4 (thorough <=6) rows {k,v,id} over the group keys {\"a\",\"b\",\"\",\"é\",1,null,absent} (including the empty stream and streams whose every row is dropped) x 13 upstream pipelines (take 35 and skip 3 take 100 among them; none, select, select of the key only (so that rows repeat), filter, unique, sort by id desc, sort by the mixed-type key, skip+take, split, take 0, select+sort+skip+take) x {--group-by=.k, --group-by=(get . \"k\"), --merge} x {json, text output}; long cyclic streams of 17, 40, 300 and 1100 rows; streams with 15..257 distinct keys each coming back; non-trivial = two rows share a key or a row is dropped for its key; distinct by construction",
         explanation: "exactly one value must be printed, after the input ended; it is compared (a) with the documented grouping applied to the rows the same pipeline prints without grouping (differential) and (b) with the reference pipeline",
         assumptions: COMMON_ASSUMPTIONS.to_vec(),
-        guards: vec!["empty-input", "no-row-survives", "non-string-key-dropped", "absent-key-dropped", "two-rows-share-a-key", "limiter-before-grouper", "empty-string-key", "non-ascii-key", "text-output"],
+        guards: vec!["many-distinct-keys", "empty-input", "no-row-survives", "non-string-key-dropped", "absent-key-dropped", "two-rows-share-a-key", "limiter-before-grouper", "empty-string-key", "non-ascii-key", "text-output"],
         budget_s: (100, 2400),
         single_worker: false,
         run,
@@ -61,6 +61,11 @@ fn upstreams() -> Vec<Up> {
         }, false),
         mk("split", &|_| {}, true),
         mk("take0", &|c| c.take = Some(0), false),
+        mk("take35", &|c| c.take = Some(35), false),
+        mk("skip3-take100", &|c| {
+            c.skip = 3;
+            c.take = Some(100)
+        }, false),
         mk("select+sort+skip+take", &|c| {
             c.selects = vec![(p(".k"), "k".into()), (p(".id"), "id".into())];
             c.sorts = vec![(p("/id/"), true, "desc")];
@@ -240,5 +245,28 @@ fn run(ctx: &mut Ctx) {
         }
         ctx.level_done(&format!("cyclic-streams-of-{total}-rows"));
     }
+    // many distinct keys (tables that change representation beyond a number of groups), each key coming back later
+    for nkeys in [15usize, 16, 17, 24, 25, 26, 33, 64, 65, 100, 257] {
+        if !ctx.mine() {
+            continue;
+        }
+        let many: Vec<Option<V>> = (0..nkeys).map(|i| Some(V::Str(format!("g{i}")))).chain([None, Some(V::int(5))]).collect();
+        for pattern in 0..3usize {
+            let total = nkeys * 2 + 7;
+            let idx: Vec<usize> = (0..total)
+                .map(|i| match pattern {
+                    0 => i % nkeys,                       // all keys once, then again in the same order
+                    1 => (i * 7 + i / nkeys) % (nkeys + 2), // scattered, with absent and non-string keys in between
+                    _ => if i < nkeys { i } else { nkeys - 1 - (i % nkeys) }, // first-seen order, then reversed
+                })
+                .collect();
+            let rows = pipe::rows_from(&many, &idx);
+            ctx.guard("many-distinct-keys");
+            for up in &ups {
+                explore(ctx, up, &rows);
+            }
+        }
+    }
+    ctx.level_done("many-distinct-keys(15..257)-each-coming-back");
     let _ = Tier::Quick;
 }
